@@ -301,3 +301,9 @@ type_cid = z3.Function('type_cid', Val, I)
 typeval = z3.Function('typeval', I, Val)
 # last index of key k in the first n elements of the sequence K (-1 if absent): spec function of dict(zip(K, V))
 zip_last = z3.Function('zip_last', ValArr, I, Val, I)
+
+
+def len_nonneg(llen):
+  """Heap well-formedness: every list length is non-negative."""
+  r = z3.Int('ln_r')
+  return _forall([r], llen[r] >= 0, patterns=[llen[r]])
